@@ -8,6 +8,9 @@
 mod history;
 mod reward;
 
+#[cfg(grevm_verif)]
+pub(crate) use history::probe as history_probe;
+
 use crate::{TxId, TxVersion};
 use history::BeneficiaryHistory;
 
